@@ -212,6 +212,11 @@ class Project:
             # the user puts one of their own files in the target's place as a HARD LINK (ln -f mine out): the file has two
             # names from then on
             path = self.p / op[1]
+            try:
+                if not path.is_symlink() and os.stat(path).st_ino == os.stat(self.p / op[2]).st_ino:
+                    return obs             # already that very file under this name: linking it there again changes nothing
+            except FileNotFoundError:
+                pass
             tmp = path.with_name(path.name + ".rvhard")
             if tmp.exists():
                 os.unlink(tmp)
